@@ -25,7 +25,7 @@ func (it *Interp) evalCall(fr *Frame, call *ast.CallExpr) Value {
 			if b, ok := to.Underlying().(*types.Basic); ok && b.Info()&types.IsInteger != 0 {
 				return x
 			}
-			return NumV{From: "T(" + x.E.String() + ")"}
+			return NumV{From: "T(" + x.E.String() + ")", Sym: LinToSym(x.E)}
 		case NumV:
 			if b, ok := to.Underlying().(*types.Basic); ok && b.Info()&types.IsInteger != 0 {
 				return it.opaqueInt("int(" + showVal(x) + ")")
